@@ -29,6 +29,9 @@ pub struct Case {
     /// defaults added to top-level record fields: (full name of the input, field name, default)
     #[serde(default)]
     pub defaults: Vec<(String, String, J)>,
+    /// aliases given to input schemas: (full name of the input, alias as written in its "aliases")
+    #[serde(default)]
+    pub aliases: Vec<(String, String)>,
 }
 
 // ------------------------------------------------------------------------------------------------
@@ -44,6 +47,8 @@ struct Model {
     top: Vec<String>,
     /// some reference names the null namespace with a leading dot (".Name")
     leading_dot: bool,
+    /// some definition carries an alias
+    alias_used: bool,
 }
 
 const PRIMS: [&str; 8] = ["null", "boolean", "int", "long", "float", "double", "bytes", "string"];
@@ -61,6 +66,25 @@ fn fullname(obj: &serde_json::Map<String, J>, enclosing: &Option<String>) -> Opt
     match &ns {
         Some(n) => Some((format!("{n}.{name}"), ns.clone())),
         None => Some((name.to_string(), None)),
+    }
+}
+
+/// An alias is another name under which the definition can be referred to (an alias without a
+/// namespace of its own lives in the namespace of the schema it belongs to).
+fn alias_defs(obj: &serde_json::Map<String, J>, ns: &Option<String>, input: usize, m: &mut Model) {
+    if let Some(J::Array(al)) = obj.get("aliases") {
+        for a in al.iter().filter_map(|a| a.as_str()) {
+            let full = if a.contains('.') {
+                a.to_string()
+            } else {
+                match ns {
+                    Some(n) if !n.is_empty() => format!("{n}.{a}"),
+                    _ => a.to_string(),
+                }
+            };
+            m.defs.entry(full).or_default().push(input);
+            m.alias_used = true;
+        }
     }
 }
 
@@ -88,6 +112,7 @@ fn walk(j: &J, enclosing: &Option<String>, input: usize, m: &mut Model) {
             Some(J::String(t)) => match t.as_str() {
                 "record" => {
                     if let Some((full, ns)) = fullname(obj, enclosing) {
+                        alias_defs(obj, &ns, input, m);
                         m.defs.entry(full).or_default().push(input);
                         if let Some(J::Array(fields)) = obj.get("fields") {
                             for f in fields {
@@ -99,7 +124,8 @@ fn walk(j: &J, enclosing: &Option<String>, input: usize, m: &mut Model) {
                     }
                 }
                 "enum" | "fixed" => {
-                    if let Some((full, _)) = fullname(obj, enclosing) {
+                    if let Some((full, ns)) = fullname(obj, enclosing) {
+                        alias_defs(obj, &ns, input, m);
                         m.defs.entry(full).or_default().push(input);
                     }
                 }
@@ -332,6 +358,15 @@ fn run_case(case: &Case, ctx: &mut Ctx) -> Option<Failure> {
             }
         }
     }
+    for (top, alias) in &case.aliases {
+        for j in jsons.iter_mut() {
+            let is_top = j.as_object().and_then(|o| fullname(o, &None)).map(|x| &x.0 == top).unwrap_or(false);
+            if is_top {
+                j["aliases"] = json!([alias]);
+                ctx.agg.count("probe.input_with_alias");
+            }
+        }
+    }
     let texts: Vec<String> = jsons.iter().map(|j| serde_json::to_string(j).unwrap()).collect();
     let m = model_of(&jsons);
     if m.top.iter().any(|t| t.is_empty()) {
@@ -342,6 +377,12 @@ fn run_case(case: &Case, ctx: &mut Ctx) -> Option<Failure> {
         let mut defs = Defs::new();
         for inp in &case.inputs {
             collect_defs(inp, &mut defs);
+        }
+        for (top, alias) in &case.aliases {
+            if let Some(t) = defs.get(top).cloned() {
+                let full = if alias.contains('.') { alias.clone() } else { match split_full(top).0 { Some(ns) => format!("{ns}.{alias}"), None => alias.clone() } };
+                defs.insert(full, t);
+            }
         }
         let from_ast: BTreeSet<&String> = defs.keys().collect();
         let from_json: BTreeSet<&String> = m.defs.keys().collect();
@@ -436,6 +477,12 @@ fn run_case(case: &Case, ctx: &mut Ctx) -> Option<Failure> {
                     let mut defs = Defs::new();
                     for inp in &case.inputs {
                         collect_defs(inp, &mut defs);
+                    }
+                    for (top, alias) in &case.aliases {
+                        if let Some(t) = defs.get(top).cloned() {
+                            let full = if alias.contains('.') { alias.clone() } else { match split_full(top).0 { Some(ns) => format!("{ns}.{alias}"), None => alias.clone() } };
+                            defs.insert(full, t);
+                        }
                     }
                     let ra = resolve_in_order(va, &names);
                     let rb = resolve_in_order(vb, &names);
@@ -710,6 +757,35 @@ fn gen_set(r: &mut Rng) -> Vec<RS> {
     inputs
 }
 
+/// One input in a sixth of the sets gets an alias, and another input refers to it by that alias.
+fn gen_aliases(r: &mut Rng, inputs: &mut [RS]) -> Vec<(String, String)> {
+    if inputs.len() > 6 || !r.chance(1, 6) {
+        return vec![];
+    }
+    let n = inputs.len();
+    let j = r.usize_below(n);
+    let (target_full, target_ns) = match &inputs[j] {
+        RS::Record { full, .. } | RS::Enum { full, .. } | RS::Fixed { full, .. } => (full.clone(), split_full(full).0.map(|s| s.to_string())),
+        _ => return vec![],
+    };
+    let alias_short = format!("Al{j}");
+    let alias_full = match &target_ns {
+        Some(ns) => format!("{ns}.{alias_short}"),
+        None => alias_short.clone(),
+    };
+    // the alias as written: short (inherits the schema's namespace) or fully qualified
+    let written = if target_ns.is_some() && r.chance(1, 2) { alias_full.clone() } else { alias_short };
+    let i = (j + 1 + r.usize_below(n - 1)) % n;
+    if let RS::Record { full, fields, .. } = &mut inputs[i] {
+        let referrer_ns = split_full(full).0;
+        // a name without a namespace cannot be referred to from inside a namespace (except with a leading dot)
+        if target_ns.is_some() || referrer_ns.is_none() {
+            fields.push(("al".into(), RS::Union(vec![RS::Null, RS::Ref { full: alias_full, short: false }])));
+        }
+    }
+    vec![(target_full, written)]
+}
+
 /// Valid defaults for some top-level record fields (validated by the parser against the field's
 /// type at the moment the field is parsed - so a default on a reference-typed field needs the
 /// referenced definition to be known by then).
@@ -809,8 +885,10 @@ impl Property for C20 {
         let mut perm: Vec<usize> = (0..inputs.len()).collect();
         sr.shuffle(&mut perm);
         let picks: Vec<usize> = (0..inputs.len() + 2).map(|_| sr.usize_below(inputs.len())).collect();
+        let mut inputs = inputs;
+        let aliases = gen_aliases(&mut rng.fork("aliases"), &mut inputs);
         let defaults = gen_defaults(&mut rng.fork("defaults"), &inputs);
-        Some(Case { inputs, perm, picks, api: if sr.chance(1, 4) { 1 } else { 0 }, salt: wr.next_u64(), defaults })
+        Some(Case { inputs, perm, picks, api: if sr.chance(1, 4) { 1 } else { 0 }, salt: wr.next_u64(), defaults, aliases })
     }
 
     fn execute(&self, case: &Case, ctx: &mut Ctx) -> Option<Failure> {
